@@ -48,13 +48,15 @@ package searcher
 //@   mode int
 //@   requires s != nil && poolApart(ctx, s) && conjShape(s) && 0 <= i && i < len(s.searchers) && forall(k, 0, len(s.searchers), slotOK(s, k))
 //@   requires implies(s.currs[i] != nil, dmKey(s.currs[i]) < idKey(ID))
+// set level: nothing still to be delivered lies before the target, nor before any child
+//@   requires conjR(s) && all(x, string, implies(conjTodo(s, x), x >= idKey(ID)))
 //@   modifies s.currs[*], fields(search.DocumentMatch), search.DocumentMatch.cowner, search.DocumentMatchPool.avail, mem(*search.DocumentMatch), s.searchers[i].started, s.searchers[i].last, s.searchers[i].done
 //@   at call s.searchers[i].Advance#0 after: ghost result0.cowner = recv
 //@   ensures poolApart(ctx, s) && conjShape(s) && s.currs == old(s.currs) && s.searchers == old(s.searchers) && forall(k, 0, len(s.searchers), implies(k != i, s.currs[k] == old(s.currs[k])))
 //@   ensures implies(err == nil, forall(k, 0, len(s.searchers), slotOK(s, k)) && implies(s.currs[i] != nil, dmKey(s.currs[i]) >= idKey(ID)))
 //@   ensures forall(k, 0, len(s.searchers), implies(k != i && s.currs[k] != nil, dmKey(s.currs[k]) == old(dmKey(s.currs[k]))))
 // set level: what is still to be delivered at or above the target stays at or after every child
-//@   ensures implies(err == nil && old(conjRge(s, idKey(ID))), conjRge(s, idKey(ID)))
+//@   ensures implies(err == nil, conjR(s))
 //@   ensures s.lbset == old(s.lbset) && s.lb == old(s.lb) && s.started == old(s.started) && s.last == old(s.last) && s.done == old(s.done)
 
 // initSearchers: every child is moved to its first match
@@ -80,7 +82,7 @@ package searcher
 //@   mode int
 // (calls after exhaustion are not covered: requires !s.done)
 //@   requires s != nil && poolApart(ctx, s) && conjInv(s) && s.scorer != nil && !s.done && len(s.searchers) > 0 && implies(!s.initialized, !s.lbset)
-//@   modifies fields(ConjunctionSearcher), s.currs[*], fields(search.DocumentMatch), search.DocumentMatch.cowner, search.DocumentMatchPool.avail, mem(*search.DocumentMatch), search.Searcher.started, search.Searcher.last, search.Searcher.done
+//@   modifies s.lbset, s.lb, fields(ConjunctionSearcher), s.currs[*], fields(search.DocumentMatch), search.DocumentMatch.cowner, search.DocumentMatchPool.avail, mem(*search.DocumentMatch), search.Searcher.started, search.Searcher.last, search.Searcher.done
 //@   at call searcher.Next#0 after: ghost result0.cowner = recv
 //@   at return: ghost s.started = s.started || (result1 == nil && result0 != nil)
 //@   at return: ghost s.last = ite(result1 == nil && result0 != nil, dmKey(result0), s.last)
@@ -114,9 +116,9 @@ package searcher
 //@   mode int
 //@   requires s != nil && poolApart(ctx, s) && conjInv(s) && s.scorer != nil && !s.done && unconsumed(s.started, s.last, idKey(ID)) && len(s.searchers) > 0 && !s.lbset
 //@   at call s.Next#0: assert s.initialized && forall(k, 0, len(s.searchers), implies(s.currs[k] != nil, dmKey(s.currs[k]) >= idKey(ID)))
-//@   at call s.Next#0: ghost s.lbset = true
-//@   at call s.Next#0: ghost s.lb = idKey(ID)
-//@   modifies fields(ConjunctionSearcher), s.currs[*], fields(search.DocumentMatch), search.DocumentMatch.cowner, search.DocumentMatchPool.avail, mem(*search.DocumentMatch), search.Searcher.started, search.Searcher.last, search.Searcher.done
+//@   at entry: ghost s.lbset = true
+//@   at entry: ghost s.lb = idKey(ID)
+//@   modifies s.lbset, s.lb, fields(ConjunctionSearcher), s.currs[*], fields(search.DocumentMatch), search.DocumentMatch.cowner, search.DocumentMatchPool.avail, mem(*search.DocumentMatch), search.Searcher.started, search.Searcher.last, search.Searcher.done
 //@   at return: ghost s.started = s.started || (result1 == nil && result0 != nil)
 //@   at return: ghost s.last = ite(result1 == nil && result0 != nil, dmKey(result0), s.last)
 //@   at return: ghost s.done = s.done || (result1 == nil && result0 == nil)
@@ -126,4 +128,4 @@ package searcher
 //@   ensures implies(result1 == nil && result0 != nil, conjMatch(s, dmKey(result0)) && all(x, string, implies(conjMatch(s, x) && x >= idKey(ID), x >= dmKey(result0))))
 //@   ensures implies(result1 == nil && result0 == nil, all(x, string, implies(conjMatch(s, x), x < idKey(ID))))
 //@   ensures implies(result1 == nil && result0 == nil, s.done)
-//@   loop 0: invariant s.initialized && conjLoop0(ctx, s) && conjRge(s, idKey(ID)) && !s.lbset && s.scorer != nil && s.currs == old(s.currs) && s.searchers == old(s.searchers) && s.started == old(s.started) && s.last == old(s.last) && s.done == old(s.done) && forall(k, 0, iter, implies(s.currs[k] != nil, dmKey(s.currs[k]) >= idKey(ID)))
+//@   loop 0: invariant s.initialized && conjLoop(ctx, s) && s.lbset && s.lb == idKey(ID) && s.scorer != nil && s.currs == old(s.currs) && s.searchers == old(s.searchers) && s.started == old(s.started) && s.last == old(s.last) && s.done == old(s.done) && forall(k, 0, iter, implies(s.currs[k] != nil, dmKey(s.currs[k]) >= idKey(ID)))
